@@ -63,6 +63,9 @@ def check(run):
                       'Pauli.rotate_by must forward generator and mask to the list rotation')
     for rel in (K.PY_S, K.TC_S):
         f = repo.func(rel, 'clifford_rotation_map')
+        from ..rules import effect
+        effect.check_pure(run, K.effects_of(repo), f)
+        effect.check_fresh_result(run, K.effects_of(repo), f)
         bind.check_function_calls(run, repo, f, only={'clifford_rotate', 'CliffordMap'})
         bind.check_unpacks(run, repo, f)
         # rotation applied to the identity table with zero phases
